@@ -31,6 +31,40 @@ static const char *ss_name(int rc) {
 }
 
 /* M-lim: after every call */
+/* M-acct, wire side: a start line, the name and value bytes of the parsed headers and the bytes counted in a message length are
+ * distinct bytes of that direction's stream, so their sum can never exceed what was offered (C06, every input).  (Raw header data is
+ * not used here: its receiver stays attached over the status line after an interim 100 and over some hand-overs.)  Joined repeated
+ * headers (", ") and unfolded lines (" ") add no more than the separators they replace; trailer fields may be part of the message
+ * length, so a side that delivered a trailer contributes no header bytes. */
+static int64_t hdr_bytes(const htp_table_t *t) {
+    int64_t n = 0;
+    for (size_t i = 0, m = t ? htp_table_size(t) : 0; i < m; i++) { htp_header_t *h = htp_table_get_index(t, i, NULL); if (h) n += (int64_t) (h->name ? bstr_len(h->name) : 0) + (int64_t) (h->value ? bstr_len(h->value) : 0); }
+    return n;
+}
+static void monitor_wire(htp_connp_t *c, const hx_script *s, hx_obs *o) {
+    int64_t offered[2] = { 0, 0 }, used[2] = { 0, 0 };
+    for (int i = 0; i < s->nops; i++) {
+        const hx_op *op = &s->ops[i];
+        if (op->k == OP_Q || op->k == OP_QG) offered[0] += op->n; else if (op->k == OP_S || op->k == OP_SG) offered[1] += op->n;
+        else if (op->k == OP_DESTROY) return;
+    }
+    if (s->repeat > 1) { offered[0] *= s->repeat; offered[1] *= s->repeat; }
+    size_t n = htp_list_size(c->conn->transactions);
+    for (size_t i = 0; i < n; i++) {
+        htp_tx_t *tx = htp_list_get(c->conn->transactions, i);
+        if (!tx) return;                                     /* a destroyed transaction took its counters with it */
+        int ord = (int) (intptr_t) htp_tx_get_user_data(tx) - 1;
+        if (ord < 0 || ord >= o->ntx) return;
+        const hx_txrec *r = &o->tx[ord];
+        int qtrailer = r->kinds.n && memchr(r->kinds.p, CB_REQ_TRAILER, r->kinds.n) != NULL, strailer = r->kinds.n && memchr(r->kinds.p, CB_RES_TRAILER, r->kinds.n) != NULL;
+        used[0] += tx->request_message_len + (qtrailer ? 0 : hdr_bytes(tx->request_headers)) + (tx->request_line ? (int64_t) bstr_len(tx->request_line) : 0);
+        used[1] += tx->response_message_len + (strailer ? 0 : hdr_bytes(tx->response_headers)) + (tx->response_line ? (int64_t) bstr_len(tx->response_line) : 0);
+    }
+    for (int d = 0; d < 2; d++)
+        if (used[d] > offered[d])
+            hx_verdict_add("C06", "message_len_over_wire", "%s stream: start lines + header names and values + message lengths add up to %lld, but only %lld bytes were offered (some wire bytes are counted twice)",
+                           d ? "response" : "request", (long long) used[d], (long long) offered[d]);
+}
 static void monitor_limits(htp_connp_t *c) {
     size_t lim = c->cfg->field_limit_hard;
     if (c->in_buf && c->in_buf_size > lim)
@@ -257,6 +291,7 @@ int hx_run(const hx_script *s, hx_obs *o) {
     }
     o->final_in_status = c->in_status; o->final_out_status = c->out_status;
     o->final_susp[0] = drv_susp[0]; o->final_susp[1] = drv_susp[1];
+    if (!s->light && !s->nfault) monitor_wire(c, s, o);
     if (!s->light) hx_dump_conn(&o->dump, c, 0);
     if (s->want_canon) hx_canon(&o->canon, c);
     if (s->inspect) s->inspect(c, o, s->inspect_ctx);
